@@ -52,6 +52,7 @@ class Context:
         self.ghost_assumes = set()
         self.ob_cache = {}
         self.degraded = set()
+        self.objidx_cache = {}
         self._alias = {}
         self.renamed = set()
         bl = os.path.join(os.path.dirname(os.path.dirname(os.path.abspath(__file__))), "baseline_locals.json")
@@ -88,6 +89,18 @@ class Context:
         if module not in self._mconsts:
             self._mconsts[module] = {k: v for k, v in self.source.module_constants(module).items() if isinstance(v, (int, str))}
         return self._mconsts[module]
+
+    def module_globals(self, module):
+        out = set()
+        for st in self.source.module(module).body:
+            if isinstance(st, ast.Assign):
+                for t in st.targets:
+                    if isinstance(t, ast.Name):
+                        out.add(t.id)
+            elif isinstance(st, (ast.Import, ast.ImportFrom)):
+                for a in st.names:
+                    out.add((a.asname or a.name).split(".")[0])
+        return out
 
     def module_funcs(self, module):
         """Module-level functions visible in `module`: its own defs and `from coco.util import ...` names."""
